@@ -247,7 +247,10 @@ class StationaryVelocityFieldTransform(DenseVectorFieldTransform):
     def grid_(self, grid: Grid) -> StationaryVelocityFieldTransform:
         r"""Set sampling grid of transformation domain and codomain."""
         super().grid_(grid)
-        self.exp.align_corners = grid.align_corners()
+        if self.exp.align_corners != grid.align_corners():
+            # do not modify the ExpFlow module shared with shallow copies, e.g., when called by grid()
+            self.exp = shallow_copy(self.exp)
+            self.exp.align_corners = grid.align_corners()
         return self
 
     def inverse(
